@@ -30,7 +30,13 @@ CONSTANTS
   TxVSize,       \* virtual size (GetTxVirtualSize)
   TxSize,        \* full serialized size (orphan size limit)
   TxRbf,         \* explicit BIP125 signalling (all inputs' sequence <= 0xfffffffd)
-  TxCls,         \* "ok" | "badscript" | "insane" | "negfee"
+  TxCls,         \* "ok" | "badscript" | "insane" | "negfee" | "small" (valid in a block, but shorter than
+                 \* MinStandardTxNonWitnessSize: always refused by the pool)
+  TxLock,        \* nLockTime class (with a non-final sequence number): "none" | "h0" (a height already
+                 \* passed) | "h1" / "h2" (height of the first / second block mined here) | "tpast" (a time
+                 \* before every median time past) | "tbetween" (after the median time past, before the
+                 \* wall clock) | "tfuture" (after the wall clock)
+  Standard,      \* ~Policy.AcceptNonStd: CheckTransactionStandard runs, which is where finality is tested
   TxWit,         \* the transaction carries witness data (never put into the blocks mined here)
   NFund,         \* confirmed non-coinbase coins <<0,0>> .. <<0,NFund-1>>
   SlotParent,    \* block slots 1..Len(SlotParent); parent slot, 0 = tip of the base chain
@@ -80,12 +86,15 @@ IsCb(c)   == c[1] < 0
 RAcc == 1   RMiss == 2
 RDup == 10  RInsane == 11  RPoolSpent == 12  RInChain == 13  RInputs == 14
 RRate == 15 REvictMany == 16 RSpendsConfl == 17 RFeeRate == 18 RAbsFee == 19
-RNewUnconf == 20 RScript == 21 RNoOrphans == 22 ROrphanBig == 23
-Results == {1, 2} \cup (10..23)
+RNewUnconf == 20 RScript == 21 RNoOrphans == 22 ROrphanBig == 23 RSmall == 24 RNonFinal == 25
+Results == {1, 2} \cup (10..25)
 
 ASSUME /\ \A t \in Txs : \A c \in TxIns[t] : Src(c) < t
        /\ \A t \in Txs : TxIns[t] # {} /\ TxNOut[t] >= 1
        /\ \A b \in Slots : SlotParent[b] < b
+       \* without the standardness checks btcd does not test finality at all; those
+       \* configurations are explored with transactions that are always final
+       /\ Standard \/ \A t \in Txs : TxLock[t] \in {"none", "h0", "tpast"}
 
 RECURSIVE SlotHeight(_)
 SlotHeight(b) == IF b = 0 THEN 0 ELSE 1 + SlotHeight(SlotParent[b])
@@ -110,6 +119,12 @@ Utxo(ch, cont)      == Created(ch, cont) \ SpentIn(ch, cont)
 CoinHeight(c)       == IF c = BaseCB THEN 0 ELSE SlotHeight(0 - c[1])
 \* a chain coin may be spent by a transaction of the block at height h
 Mature(c, h)        == IsCb(c) => (h - CoinHeight(c) >= Maturity)
+\* IsFinalizedTransaction(tx, height hn of the block that would contain it, median time past):
+\* the median time past stays between "tpast" and "tbetween" during a run
+Final(t, hn) == CASE TxLock[t] = "h1" -> 1 < hn
+                  [] TxLock[t] = "h2" -> 2 < hn
+                  [] TxLock[t] \in {"tbetween", "tfuture"} -> FALSE
+                  [] OTHER -> TRUE
 \* what the pool sees of the chain: BestHeight and the utxo set
 CV(ch, cont)        == [h |-> Len(ch), utxo |-> Utxo(ch, cont)]
 
@@ -206,11 +221,13 @@ Check(t, ps, cv, isNew, rateLimit, rejectDupOrphans) ==
       R(code, pen, ev) == [res |-> code, penny |-> pen, evict |-> ev]
   IN
   IF t \in PoolSet(ps) \/ (rejectDupOrphans /\ t \in ps.orph) THEN R(RDup, ps.penny, {})
+  ELSE IF TxCls[t] = "small" THEN R(RSmall, ps.penny, {})
   ELSE IF TxCls[t] = "insane" THEN R(RInsane, ps.penny, {})
   ELSE IF direct # {} /\ (RejectRepl \/ \E x \in direct : ~Signals(x, ps)) THEN R(RPoolSpent, ps.penny, {})
   ELSE IF Outs(t) \cap utxo # {} THEN R(RInChain, ps.penny, {})
   ELSE IF \E c \in TxIns[t] : ~avail(c) THEN R(RMiss, ps.penny, {})
   ELSE IF TxCls[t] = "negfee" \/ \E c \in TxIns[t] : c \in utxo /\ ~Mature(c, h + 1) THEN R(RInputs, ps.penny, {})
+  ELSE IF Standard /\ ~Final(t, h + 1) THEN R(RNonFinal, ps.penny, {})   \* validateStandardness(tx, nextBlockHeight, medianTimePast)
   ELSE IF free /\ ps.penny >= FreeLimit THEN R(RRate, ps.penny, {})
   ELSE IF direct # {} /\ Cardinality(confl) > MaxEvict THEN R(REvictMany, pen2, {})
   ELSE IF direct # {} /\ Ancestors(t, ps) \cap confl # {} THEN R(RSpendsConfl, pen2, {})
@@ -322,7 +339,8 @@ ConnectUp(nc, k, P, cont) ==
 BodyOK(S, ch, cont) ==
   LET utxo == Utxo(ch, cont) IN
   /\ S \cap Confirmed(ch, cont) = {}
-  /\ \A t \in S : /\ TxCls[t] = "ok"
+  /\ \A t \in S : /\ TxCls[t] \in {"ok", "small"}
+                  /\ Final(t, Len(ch) + 1)
                   /\ \A c \in TxIns[t] : \/ c \in utxo /\ Mature(c, Len(ch) + 1)
                                          \/ Src(c) \in S
   /\ \A t, u \in S : t # u => TxIns[t] \cap TxIns[u] = {}
